@@ -242,7 +242,7 @@ struct Runner {
       // outside the buffer); recorded and raised at the end of the case so everything else is still checked.
       ++c07_nchecks;
       if (!(q.begin() == q.end())) {
-        if (F == F_REQ) defer("iter-empty", "C07|req|iteration|empty sketch: begin() != end()", ctx + "begin() != end() on an empty sketch (0 retained items, iteration would yield entries)");
+        if (F == F_REQ) defer("iter-empty", "C07|req|iteration|empty-sketch-begin!=end", ctx + "begin() != end() on an empty sketch (0 retained items, iteration would yield entries)");
         else vf::fail("iter-empty", ctx + "begin() != end() on an empty sketch");
       }
       return;
@@ -311,7 +311,7 @@ struct Runner {
       if (!weights_ok) {
         std::ostringstream os;
         os << ctx << "iterator weights: sum " << sumw << " n " << n << " (retained " << retained << ", powers of two " << pow2 << ", largest view weight " << maxw << ")";
-        if (kll_level0_empty) defer("iter-weights", "C07|kll|iterator weights|level 0 empty after merge", os.str() + " with level 0 empty");
+        if (kll_level0_empty) defer("iter-weights", "C07|kll|iterator-weights|level0-empty-after-merge", os.str() + " with level 0 empty");
         else vf::fail("iter-weights", os.str());
       }
     }
@@ -515,7 +515,7 @@ struct Runner {
     for (int s = 0; s < NS; ++s) {
       const uint64_t sel = static_cast<uint64_t>(cs.get(ksame ? "k0" : "k" + std::to_string(s), 0));
       kreq.push_back(k_from(F, sel));
-      hra.push_back(hra0);
+      hra.push_back(F == F_REQ && s == NS - 1 && (cs.get("mixhra", 1) & 3) == 0 ? !hra0 : hra0);  // sometimes one sketch of the other mode
       sk.push_back(SkOf<F, T, C>::make(kreq[s], hra[s]));
       model.emplace_back();
     }
@@ -629,36 +629,50 @@ rc::Gen<int64_t> ksel_small() { return rc::gen::weightedOneOf<int64_t>({{6, vf::
 
 std::vector<std::pair<std::string, rc::Gen<int64_t>>> cfg_gens(rc::Gen<int64_t> ksel) {
   using namespace vf;
-  return {{"fam", range(0, 2)}, {"type", range(0, 3)}, {"seed", range(1, 1 << 30)}, {"hra", range(0, 1)}, {"ksame", range(0, 1)},
+  return {{"fam", range(0, 2)}, {"type", range(0, 3)}, {"seed", range(1, 1 << 30)}, {"hra", range(0, 1)}, {"mixhra", range(0, 3)}, {"ksame", range(0, 1)},
           {"k0", ksel}, {"k1", ksel}, {"k2", ksel}, {"k3", ksel}};
+}
+
+// op list whose length scales with the rapidcheck size and which shrinks by REMOVING ops (vf::oplist keeps the count
+// fixed while shrinking, which leaves long tails of no-op lines in the shrunk histories of this harness)
+rc::Gen<std::vector<Op>> ops_removable(std::function<rc::Gen<Op>(int)> opg, int lo, double per) {
+  return rc::gen::withSize([=](int size) {
+    const int maxn = lo + static_cast<int>(size * per);
+    return rc::gen::resize(maxn, rc::gen::container<std::vector<Op>>(opg(size)));
+  });
 }
 
 rc::Gen<Case> gen_main() {
   using namespace vf;
-  auto slot = range(0, NS - 1);
-  auto opg = choose({
-      {5, op4("bulk", slot, rc::gen::withSize([](int s) { return range(0, 30 + 20 * s); }), range(0, 7), range(0, 1 << 20))},
-      {2, op4("bulk", slot, range(0, 40), range(0, 7), range(0, 1 << 20))},
-      {3, op3("upd", slot, raw_gen(), range(0, 1))},
-      {6, op3("merge", slot, slot, range(0, 2))},
-      {1, op3("copy", slot, slot, range(0, 2))},
-      {2, op2("query", slot, range(0, 1 << 20))},
-      {1, op3("reset", slot, range(0, 15), range(0, 7))},
-  });
-  return make_case(cfg_gens(ksel_small()), oplist(opg, 3, 0.3));
+  auto opg = [](int size) {
+    auto slot = range(0, NS - 1);
+    return choose({
+        {5, op4("bulk", slot, range(0, 30 + 20 * size), range(0, 7), range(0, 1 << 20))},
+        {2, op4("bulk", slot, range(0, 40), range(0, 7), range(0, 1 << 20))},
+        {2, op4("bulk", slot, range(1, 6), range(0, 7), range(0, 1 << 20))},
+        {3, op3("upd", slot, raw_gen(), range(0, 1))},
+        {7, op3("merge", slot, slot, range(0, 2))},
+        {1, op3("copy", slot, slot, range(0, 2))},
+        {2, op2("query", slot, range(0, 1 << 20))},
+        {1, op3("reset", slot, range(0, 15), range(0, 7))},
+    });
+  };
+  return make_case(cfg_gens(ksel_small()), ops_removable(opg, 4, 0.5));
 }
 
 // long streams, default-size k as well; state is checked at the end only
 rc::Gen<Case> gen_large() {
   using namespace vf;
-  auto slot = range(0, NS - 1);
-  auto opg = choose({
-      {5, op4("bulk", slot, range(2000, 60000), range(0, 7), range(0, 1 << 20))},
-      {3, op3("merge", slot, slot, range(0, 2))},
-      {1, op2("query", slot, range(0, 1 << 20))},
-      {1, op3("upd", slot, raw_gen(), range(0, 1))},
-  });
-  return make_case(cfg_gens(range(0, 15)), oplist(opg, 2, 0.08));
+  auto opg = [](int) {
+    auto slot = range(0, NS - 1);
+    return choose({
+        {5, op4("bulk", slot, range(2000, 60000), range(0, 7), range(0, 1 << 20))},
+        {3, op3("merge", slot, slot, range(0, 2))},
+        {1, op2("query", slot, range(0, 1 << 20))},
+        {1, op3("upd", slot, raw_gen(), range(0, 1))},
+    });
+  };
+  return make_case(cfg_gens(range(0, 15)), ops_removable(opg, 2, 0.08));
 }
 
 }  // namespace
